@@ -204,6 +204,7 @@ pub fn cfg_for(ctx: &Ctx, subqueries: bool) -> GenCfg {
     c.scalar_subquery = !ctx.off("gen.scalar_subquery");
     c.correlated_not_in = !ctx.off("gen.correlated_not_in");
     c.derived_order = !ctx.off("gen.derived_order");
+    c.order_over_derived_sortagg = !ctx.off("gen.order_over_derived_sortagg");
     c
 }
 
